@@ -69,7 +69,7 @@ func Cleanup() {
 	for _, e := range es {
 		e.Close()
 	}
-	if tmpRoot != "" {
+	if tmpRoot != "" && os.Getenv("VCHECK_KEEP") == "" {
 		os.RemoveAll(tmpRoot)
 	}
 }
